@@ -15,7 +15,7 @@ import (
 var driveHosts = []string{
 	"example.org", "sub.example.org", "a.b.example.org", "notexample.org", "example.com", "www.example.co.uk",
 	"google.com", "mail.google.co.uk", "a.google.x.notgoogle.com", "google.blogspot.com", "google.foo.ck",
-	"google.zz", "www.ck", "ads.tracker.net", "tracker.net", "xn--e1afmkfd.org", "cdn.example.org", "example.org.evil.com",
+	"google.zz", "www.ck", "notgoogle.google.com", "a.mygoogle.google.co.uk", "notexample.example.org", "ads.tracker.net", "tracker.net", "xn--e1afmkfd.org", "cdn.example.org", "example.org.evil.com",
 	"localhost", "1.2.3.4",
 }
 
